@@ -168,7 +168,8 @@ const META: Meta = Meta {
 
 pub fn run(env: &Env, replay: Option<&Path>) -> i32 {
     let mut report = Report::new();
-    let subs: [&dyn DynSub; 2] = [&HashPoint, &HashSequence];
+    let cold = crate::coldstart::ColdStart("C14");
+    let subs: [&dyn DynSub; 3] = [&HashPoint, &HashSequence, &cold];
     if let Some(p) = replay {
         if let Err(e) = replay_file(env, &subs, p, &mut report) {
             eprintln!("harness: {}", e);
@@ -179,6 +180,9 @@ pub fn run(env: &Env, replay: Option<&Path>) -> i32 {
     replay_corpus(env, &subs, &mut report);
     drive(env, &HashPoint, env.tier.pick(200_000, 4_000_000), &mut report);
     drive(env, &HashSequence, env.tier.pick(40_000, 800_000), &mut report);
+    // fresh processes whose threads make their first calls at the same moment
+    report.notes.push(crate::coldstart::NOTE.to_string());
+    drive(env, &cold, env.tier.pick(240, 6000), &mut report);
     finish(env, report, &META)
 }
 
